@@ -415,9 +415,11 @@ def coq_stage(run, prop, gen_deps=()):
     bad_unt = [(n, e) for (n, e) in unt if not gen_deps or n in gen_deps or True]
     for n, e in bad_unt:
         res["problems"].append(f"translator: source of `{n}` left the translatable subset: {e}")
-    pfile = f"theories/Properties/{prop}.v"
-    ok, log = coq_make([pfile + "o", "theories/Extract/Extract.vo"])
-    files = deps_of(pfile)
+    # the property's statement files: Properties/Cxx.v and companions Properties/Cxx<letter>.v
+    pfiles = [f"theories/Properties/{prop}.v"] + sorted(
+        "theories/Properties/" + os.path.basename(x) for x in glob.glob(os.path.join(COQ, "theories", "Properties", prop + "[a-z].v")))
+    ok, log = coq_make([pf + "o" for pf in pfiles] + ["theories/Extract/Extract.vo"])
+    files = sorted(set(f for pf in pfiles for f in deps_of(pf)))
     res["files"] = files
     res["obligations"] = count_statements(files)
     if not ok:
@@ -432,13 +434,16 @@ def coq_stage(run, prop, gen_deps=()):
         res["discharged"] = count_statements(built)
     else:
         res["discharged"] = res["obligations"]
-        okpa, closed, axioms, out = print_assumptions(pfile)
-        nthm = len(re.findall(r"^\s*Print Assumptions", open(os.path.join(COQ, pfile)).read(), re.M))
-        res["assumptions_closed"] = closed
-        res["assumptions_expected"] = nthm
-        if not okpa or closed != nthm or axioms:
-            res["ok"] = False
-            res["problems"].append(f"Print Assumptions: {closed}/{nthm} closed; axioms reported: {axioms[:3]}")
+        tot_closed, tot_n = 0, 0
+        for pfile in pfiles:
+            okpa, closed, axioms, out = print_assumptions(pfile)
+            nthm = len(re.findall(r"^\s*Print Assumptions", open(os.path.join(COQ, pfile)).read(), re.M))
+            tot_closed += closed; tot_n += nthm
+            if not okpa or closed != nthm or axioms:
+                res["ok"] = False
+                res["problems"].append(f"Print Assumptions ({pfile}): {closed}/{nthm} closed; axioms reported: {axioms[:3]}")
+        res["assumptions_closed"] = tot_closed
+        res["assumptions_expected"] = tot_n
     hits = audit(files)
     if hits:
         res["ok"] = False
@@ -448,7 +453,7 @@ def coq_stage(run, prop, gen_deps=()):
     if res["ok"] and getattr(run, "tier", "quick") == "thorough":
         # independent re-check of the compiled cone (kernel-level checker, lists every axiom)
         with Lock("coq"):
-            rc, out = sh(["coqchk", "-o", "-silent", "-Q", "theories", "HB", f"HB.Properties.{prop}"], cwd=COQ, timeout=1800)
+            rc, out = sh(["coqchk", "-o", "-silent", "-Q", "theories", "HB"] + ["HB.Properties." + os.path.basename(pf)[:-2] for pf in pfiles], cwd=COQ, timeout=1800)
         m = re.search(r"\* Axioms:\s*(.*?)\n\s*\n", out, re.S)
         axioms = m.group(1).strip() if m else "?"
         clean = all(re.search(rf"\* {k}:\s*<none>", out) for k in
